@@ -115,6 +115,66 @@ def record_info(tree) -> dict:
     return {"ver": ver, "t": t, "step": not ws, "shape": tuple(cg.shape_of(tree, UNIVERSE))}
 
 
+# ---- content: what an independent reading of the (old) record says the flow carries ---------------------------------
+def _g(d, *names):
+    if not isinstance(d, dict):
+        return None
+    for n in names:
+        for k in (n, n.encode()):
+            if k in d:
+                return d[k]
+    return None
+
+
+def _b(v):
+    return v.encode("utf-8", "surrogateescape") if isinstance(v, str) else v
+
+
+def record_content(tree) -> dict:
+    """Read with the harness's reference codec and the old key names (never through mitmproxy.io.compat)."""
+    t = _b(_g(tree, "type"))
+    t = t.decode() if isinstance(t, bytes) else "?"
+    if t == "websocket":  # formats <= 11: merged into its handshake; judged on the WebSocket part
+        return {"type": "http", "ws": {"messages": [[m[0], m[1], _b(m[2])] for m in _g(tree, "messages") or []],
+                                       "close_code": _g(tree, "close_code"),
+                                       "closed_by_client": _g(tree, "close_sender") == "client"}}
+    out = {"type": t}
+    if t == "http":
+        rq, rs, ws = _g(tree, "request"), _g(tree, "response"), _g(tree, "websocket")
+        out["request"] = [_b(_g(rq, "method")), _b(_g(rq, "host")), _g(rq, "port"), _b(_g(rq, "path")), _g(rq, "content", "body")]
+        out["response"] = None if not rs else [_g(rs, "status_code", "code"), _g(rs, "content", "body")]
+        out["ws"] = None if not ws else {"messages": [[m[0], m[1], _b(m[2])] for m in ws["messages"]],
+                                         "close_code": ws["close_code"], "closed_by_client": ws["closed_by_client"]}
+    elif t in ("tcp", "udp"):
+        out["messages"] = [[m[0], _b(m[1])] for m in _g(tree, "messages") or []]
+    elif t == "dns":
+        rq, rs = _g(tree, "request"), _g(tree, "response")
+        out["q"] = [q["name"] for q in rq["questions"]]
+        out["answers"] = None if not rs else [[a["name"], a["data"]] for a in rs["answers"]]
+    return out
+
+
+def flow_content(f, merged: bool) -> dict:
+    """The same content, read from the attributes of the loaded flow."""
+    out = {"type": f.type}
+    if f.type == "http":
+        w = f.websocket
+        ws = None if w is None else {"messages": [[int(m.type), m.from_client, _b(m.content)] for m in w.messages],
+                                     "close_code": w.close_code, "closed_by_client": w.closed_by_client}
+        if merged:
+            return {"type": "http", "ws": ws}
+        d = f.request.data
+        out["request"] = [d.method, _b(d.host), d.port, d.path, d.content]
+        out["response"] = None if f.response is None else [f.response.data.status_code, f.response.data.content]
+        out["ws"] = ws
+    elif f.type in ("tcp", "udp"):
+        out["messages"] = [[m.from_client, _b(m.content)] for m in f.messages]
+    elif f.type == "dns":
+        out["q"] = [q.name for q in f.request.questions]
+        out["answers"] = None if f.response is None else [[a.name, a.data] for a in f.response.answers]
+    return out
+
+
 def _prep_old(state: dict, target: str) -> dict:
     """Old versions only ever serialised connected-looking server connections below format 5 (see README)."""
     st = cg.to_lists(copy.deepcopy(state))
@@ -144,10 +204,10 @@ def build_file(desc: dict):
         f = fg.make_flow(flow_kind, rng, rich=desc.get("rich", True), small=True)
         st = f.get_state()
         if kind == "synthetic":
-            d = cg.downgrade(_prep_old(st, target), target)
-            if d is None:
+            ds = cg.downgrade_records(_prep_old(st, target), target)
+            if ds is None:
                 continue
-            trees.append(d)
+            trees.extend(ds)  # a flow with WebSocket data is two records (handshake + websocket) below format 12
         elif kind == "current":
             trees.append(cg.to_lists(copy.deepcopy(st)))
         else:  # future / unsupported: a current-shaped state carrying another version value
@@ -163,7 +223,7 @@ def synthetic_applicable(flow_kind: str, target: str) -> bool:
     i = CHAIN.index(target)
     if i < CHAIN.index(cg.OLDEST_SYNTHETIC):
         return False
-    if flow_kind == "ws" and i < CHAIN.index("12"):
+    if flow_kind == "ws" and i < CHAIN.index(cg.OLDEST_WEBSOCKET_PAIR):
         return False
     if ftype in ("dns", "udp") and i < CHAIN.index("18"):
         return False
@@ -178,7 +238,8 @@ class Check(core.PropertyCheck):
     MODEL = "Compat"
     MON = "Mon_Compat"
     REQUIRED_WITNESSES = tuple(CHAIN) + ("dump", "synthetic", "current", "future", "unsupported", "migrate_identity",
-                                         "loaded_clean", "rejected", "resaved", "http", "tcp", "udp", "dns", "websocket")
+                                         "loaded_clean", "rejected", "resaved", "http", "tcp", "udp", "dns", "websocket",
+                                         "content_compared", "old_websocket_content")
     REQUIRED_ACTIONS = ("Open", "Convert", "Reject", "FromState", "Loaded", "Resave")
     LEVEL_NOTE = ("format not modelled: the version chain and the loop of migrate_flow are modelled, the per-version field moves are data (RULES) checked as drift; formats below (0,18) and the websocket split only through the shipped dumps; synthetic old states come from harness-side inverse converters")
     ASSUMPTIONS = (
@@ -190,6 +251,10 @@ class Check(core.PropertyCheck):
         "`valid current flow`: FlowReader yields it, its get_state() reports FLOW_FORMAT_VERSION, it can be re-saved and "
         "re-loaded with identical state (canon(get_state()) + attribute snapshot, interned)",
         "`explanatory`: the FlowReadException text contains the offending version number",
+        "content of a record = what the harness's reference tnetstring reader finds under the old key names: request "
+        "method/host/port/path/body, response status/body, tcp/udp messages, dns names/answers, and for WebSocket "
+        "records (type websocket <= 11, websocket key >= 12) direction/type/content of every message, close code and "
+        "closing side; str and bytes of equal UTF-8 bytes are the same content; record i is compared with flow i",
         "per-converter `step` events call the real compat.converters one by one on a copy (observation for drift only)",
     )
 
@@ -325,6 +390,21 @@ class Check(core.PropertyCheck):
         explains = end == "fre" and want is not None and not isinstance(want, bool) and (
             str(want) in msg or (isinstance(want, list) and str(tuple(want[:2])) in msg))
         trace.append({"k": "loaded", "end": end, "exc": exc, "n": len(flows), "cur": bool(cur), "explains": bool(explains)})
+        if end == "clean":
+            cont = fg.Interner()
+            a, b = [], []
+            for tree in trees:
+                try:
+                    a.append(cont(fg.canon(record_content(tree))))
+                except Exception as e:  # noqa: BLE001 - a record the reference reading cannot interpret
+                    a.append(cont("unreadable-record:" + type(e).__name__))
+            for i, f in enumerate(flows):
+                merged = i < len(trees) and record_info(trees[i])["t"] == "websocket"
+                try:
+                    b.append(cont(fg.canon(flow_content(f, merged))))
+                except Exception as e:  # noqa: BLE001
+                    b.append(cont("unreadable-flow:" + type(e).__name__))
+            trace.append({"k": "content", "a": a, "b": b})
         if end == "clean" and flows:
             states = fg.Interner()
             a = [states(fg.safe_key(f)) for f in flows]
@@ -339,3 +419,11 @@ class Check(core.PropertyCheck):
                 end2 = "other"
             trace.append({"k": "resaved", "a": a, "b": b, "end": end2})
         return trace
+
+    def drift_view(self, trace):
+        out = []
+        for ev in trace:
+            if ev.get("k") == "content" and ev["a"] == ev["b"]:
+                ev = dict(ev, a=list(range(1, len(ev["a"]) + 1)), b=list(range(1, len(ev["b"]) + 1)))
+            out.append(ev)
+        return out
